@@ -15,7 +15,7 @@ RULE = ('cases: random balanced forests over ( ) [ ] CASE END IF "END IF" FOR FO
         '(class, first leaf, last leaf) of the Parenthesis/SquareBrackets/Case/If/For/Begin nodes (last leaf after dropping attached trailing '
         'comments/whitespace) must equal what a textbook hierarchical stack matcher predicts from the statement\'s own leaves, and each node must '
         'start with its opener and end with its closer. non-trivial: >=2 matched pairs of >=2 kinds and >=1 unmatched opener/closer; distinct by text')
-ASSUMPTIONS = ['multi-word closers are written with one blank here (respelling is C11)']
+ASSUMPTIONS = ['keyword delimiters compare case-insensitively and modulo the whitespace inside multi-word keywords (END  LOOP is END LOOP)']
 
 CLASSES = {'SquareBrackets': sql.SquareBrackets, 'Parenthesis': sql.Parenthesis, 'Case': sql.Case, 'If': sql.If, 'For': sql.For, 'Begin': sql.Begin}
 PATS = {k: (op, cl) for k, op, cl in matcher.KINDS}
